@@ -110,10 +110,10 @@ func Ident(t *rapid.T, label string, sigs, encs []int) IdentSpec {
 	}
 	if !s.NullCert && rapid.IntRange(0, 3).Draw(t, label+"-hasextra") == 0 {
 		n := rapid.SampledFrom([]int{1, 2, 4, 12, 40}).Draw(t, label+"-extralen")
-		switch rapid.IntRange(0, 39).Draw(t, label+"-bigextra") {
-		case 0, 1, 2, 3, 4, 5, 6, 7, 8: // certificate lengths around the one-byte boundary
+		switch r := rapid.IntRange(0, 399).Draw(t, label+"-bigextra"); {
+		case r < 90: // certificate lengths around the one-byte boundary
 			n = rapid.SampledFrom([]int{247, 251, 252, 253, 256, 300, 1000}).Draw(t, label+"-extralen2")
-		case 9: // and near the two-byte limit (payload = 4 + n <= 65535)
+		case r == 90: // and near the two-byte limit (payload = 4 + n <= 65535); rare, every copy costs
 			n = rapid.SampledFrom([]int{4000, 65531}).Draw(t, label+"-extralen3")
 		}
 		s.Extra = hex.EncodeToString(model.Fill(n, s.PadSeed^0xe))
